@@ -12,7 +12,7 @@ func init() {
 	Register(&Property{
 		ID: "C20",
 		Decides: "(R20.1) every (object, header, body) triple put into a last-value cache slot — the permanent databases' last block map / last suffrage proof, the block writer's and the temp database's copies — has all three components assigned from a non-nil source (never a never-assigned variable or a nil constant), and on the reload paths header and body come from the same decoded frame as the object; " +
-			"(R20.2) both permanent back-ends' constructors reload every slot the merge path maintains (encoder hint, block map, suffrage proof, network policy) and fail if a reload fails; (R20.3) writer and reader sides of each record kind use a compatible frame codec pair.",
+			"(R20.2) both permanent back-ends' constructors reload every slot the merge path maintains (encoder hint, block map, suffrage proof, network policy) and fail if a reload fails; (R20.3) writer and reader sides of each record kind use a compatible frame codec pair.; (R20.k) every leveldb key builder carries each of its parameters in full under its own prefix constant; (R20.j) jobs handed to a worker read only captured variables that the submitter does not assign again (no job works on a later batch/slot than the one it was created for)",
 		NotDecided: "byte equality of what is served before and after reopening for all histories; pool contents; what leveldb/redis persist.",
 		Run:        runC20,
 	})
@@ -94,6 +94,10 @@ func tripleStores(c *Ctx, fn *ssa.Function, lit ssa.Value) map[int]ssa.Value {
 }
 
 func runC20(c *Ctx) {
+	c.Rule("R20.j", "AsyncCapture")
+	c.AsyncCaptures(c.Need("isaac/database.(*LeveldbPermanent).mergeTempDatabaseFromLeveldb"), "*.NewJob", 2)
+	c.Rule("R20.k", "KeyTable")
+	keyBuilderRules(c)
 	// R20.1 triples ------------------------------------------------------------------------------
 	c.Rule("R20.1", "Dependence")
 	n := 0
@@ -156,6 +160,37 @@ func runC20(c *Ctx) {
 			fr := "isaacdatabase.ReadOneHeaderFrame(b)"
 			c.StoredIs(cl, "leveldb: last proof header from the decoded frame", c.StoresD(cl, "&var:meta"), 1, fr+"#1")
 			c.StoredIs(cl, "leveldb: last proof body from the decoded frame", c.StoresD(cl, "&var:body"), 1, fr+"#2")
+		}
+	}
+	// "last" loaders: the newest record is the first one of a descending scan
+	for _, t := range []struct{ fn, prefix string }{
+		{"isaac/database.(*baseLeveldb).loadLastBlockMap", "isaacdatabase.leveldbKeyPrefixBlockMap"},
+		{"isaac/database.(*LeveldbPermanent).loadLastSuffrageProof", "isaacdatabase.leveldbKeySuffrageProof"},
+	} {
+		fn := c.Need(t.fn)
+		if fn == nil {
+			continue
+		}
+		its := c.CallsD(fn, "*.Iter(*)")
+		if !c.Exists(fn, "last loader scans its records", its, 1) {
+			continue
+		}
+		c.ArgIs(fn, "last loader scans exactly its own key prefix", its, 1, 0, "util.BytesPrefix("+t.prefix+"[:])")
+		c.ArgIs(fn, "last loader scans in descending key order (newest first)", its, 1, 2, "false")
+		for _, in := range its {
+			cbv := CallArg(in, 1)
+			var cb *ssa.Function
+			switch x := cbv.(type) {
+			case *ssa.MakeClosure:
+				cb, _ = x.Fn.(*ssa.Function)
+			case *ssa.Function:
+				cb = x
+			}
+			if cb == nil {
+				c.Unresolved(fn, "last loader callback", "not a function literal")
+				continue
+			}
+			c.Report(cb, "last loader stops at the first (newest) record", cb.Pos(), len(nonMatchingReturns(c, cb, 0, "false")) == 0, "every return stops the scan")
 		}
 	}
 	if fn := c.Need("isaac/database.newTempLeveldbFromBlockWriteStorage"); fn != nil {
